@@ -182,6 +182,7 @@ type Machine struct {
 	pendAuxSet       bool
 	ufLastNonEmpty   map[int]bool
 	ufCF             map[string]bool
+	realZones        map[*Cell]*time.Location
 	ufSigOf          map[int]string
 	siteCache        map[token.Pos]string
 	lastIntrRes      Value
@@ -517,6 +518,7 @@ func (m *Machine) resetRun() {
 	m.ufApps = map[string][]*Term{}
 	m.ufInv = map[string]string{}
 	m.ufCF = map[string]bool{}
+	m.realZones = map[*Cell]*time.Location{}
 	m.trace = m.trace[:0]
 	m.auxes = m.auxes[:0]
 	m.nodes = m.nodes[:0]
